@@ -18,6 +18,7 @@ package rt
 
 import (
 	"fmt"
+	"os"
 	"reflect"
 	"runtime/debug"
 	"unsafe"
@@ -1529,7 +1530,23 @@ func WakeAll(list *WaitList) { list.wakeAll() }
 var simClock int64
 var clockJumpPos int
 var randState uint64 = 0x9e3779b97f4a7c15
-var lastNumCPU = 4
+var lastNumCPU = procNumCPU()
+
+// procNumCPU: what runtime.NumCPU/GOMAXPROCS answer before the first run, i.e.
+// while the library's package-level variables are initialised (that happens
+// before the worker's main). The orchestrator seeds it per worker process
+// through the environment; a replay file records it.
+func procNumCPU() int {
+	switch os.Getenv("VSIM_NCPU") {
+	case "1":
+		return 1
+	case "2":
+		return 2
+	case "16":
+		return 16
+	}
+	return 4
+}
 
 //go:norace
 func ClockRead() int64 {
@@ -1551,14 +1568,31 @@ func clockJump(s *Sim) {
 	}
 }
 
-// ClockSleep advances the clock and yields.
+// ClockSleep is time.Sleep: the task blocks until the simulated clock has
+// reached its wake-up time (a timer); if everybody is blocked the clock jumps
+// to the earliest timer. Outside a run the clock simply advances.
 //
 //go:norace
 func ClockSleep(d int64) {
-	if d > 0 {
-		simClock += d
+	s := S
+	if s == nil || s.cur == nil || s.aborting {
+		if d > 0 {
+			simClock += d
+		}
+		return
 	}
+	if d <= 0 {
+		SyncPoint('s', 0)
+		return
+	}
+	t := s.cur
+	tm := &SimTimer{at: simClock + d, wakeT: t, active: true, seq: timerSeq}
+	timerSeq++
+	addTimer(tm)
 	SyncPoint('s', 0)
+	for !tm.fired {
+		s.block(t)
+	}
 }
 
 //go:norace
